@@ -898,6 +898,29 @@ pub fn check_prog(cx: &mut Ctx, prog: &Prog, modes: &[Mode], o: &CheckOpts) {
     }
 }
 
+/// Large inputs: the program runs on the REAL engine and is judged by the oracles only (reference
+/// interpreter, par == seq); the model is not asked (the request line would be megabytes). The case is
+/// registered as `ORACLE-ONLY <description>` which the driver echoes.
+pub fn check_prog_oracle_only(cx: &mut Ctx, prog: &Prog, desc: &str, modes: &[Mode]) {
+    let canon = prog.canon();
+    let want = ref_answer(&reference(prog), canon);
+    for m in modes {
+        let out = run_real(prog, *m);
+        let ans = outcome_answer(&out, canon);
+        let idx = cx.case(format!("ORACLE-ONLY {desc} mode={} steps={}", m.enc(), steps_enc(&prog.steps).replace(' ', "_")), "-".into(), true);
+        cx.count("oracle-only:large-input");
+        if ans != want {
+            let short = |s: &str| if s.len() > 300 { format!("{}…({} bytes)", &s[..300], s.len()) } else { s.to_string() };
+            cx.oracle_fail(idx, "large-input-differs-from-reference", format!("mode={} real={} reference={}", m.enc(), short(&ans), short(&want)));
+        }
+    }
+}
+
+/// a keyed source of `n` rows over `keys` keys with values 0..n (deterministic)
+pub fn large_keyed_source(n: usize, keys: i64) -> Vec<V> {
+    (0..n as i64).map(|i| V::pair(V::I((i * 7919) % keys), V::I(i % 1000))).collect()
+}
+
 /// would appending `s` to a block whose ops so far are `block` make the reorder pass change the order?
 /// (`block` = sort keys of the ops of the current all-movable run; None = block contains a non-movable op)
 pub fn movable_key(s: &Step) -> Option<(u8, u8)> {
